@@ -96,6 +96,13 @@ func VF_C17_parity() {
 		}
 	}
 	vfAssert(len(stub.Iface) == len(normal.Iface), "the same interface is asserted")
+	// both files against go/types and the pinned runtime; the user's package and types are fixtures
+	for _, e := range vfTypeErrors(ntext, strings.TrimPrefix(t, "*")) {
+		vfAssert(e == "", "the normal output type-checks: "+e)
+	}
+	for _, e := range vfTypeErrors(stext, strings.TrimPrefix(t, "*")) {
+		vfAssert(e == "", "the stub type-checks: "+e)
+	}
 	for _, f := range stub.Funcs {
 		if f.Name == stub.CtorName {
 			vfAssert(f.Panics, "the stub constructor panics")
@@ -121,10 +128,13 @@ func VF_C13_template() {
 	}
 	in := input.Input{Meta: input.Meta{DefaultMustGetter: vfTri("default")},
 		Services: map[string]input.Service{"a": sa, "b": {Constructor: &ctor}}}
-	o, em, _, ok := vfGenerateO(in, false)
+	o, em, text, ok := vfGenerateO(in, false)
 	if !ok {
 		vfReach("C13_template_rejected")
 		return
+	}
+	for _, e := range vfTypeErrors(text, "NewX "+strings.TrimPrefix(t, "*")) {
+		vfAssert(e == "", "the generated file type-checks: "+e)
 	}
 	T := "interface{}"
 	if hasType {
@@ -426,57 +436,4 @@ func VF_C15_template() {
 	vfAssert(hasTodo, "the todo helper is generated")
 	_ = text
 	vfReach("C15_template")
-}
-
-func init() { vfRegister("VF_C03_helpers_text", VF_C03_helpers_text) }
-
-// vfShipped is the text of the container the generator produced for itself.
-func vfShipped() string { return vfReadRepoFile("internal/gontainer/gontainer.go") }
-
-func vfNormalize(body string) string {
-	f := strings.Fields(body)
-	return strings.Join(f, " ")
-}
-
-// VF_C03_helpers_text: the run-time helpers executed by VF_C03_getenv & co.
-// (compiled into internal/gontainer) are, modulo white space and the import
-// aliases, the helpers the current templates emit.
-func VF_C03_helpers_text() {
-	_, em, _, ok := vfGenerateO(input.Input{}, false)
-	vfAssert(ok, "the empty configuration is accepted")
-	if !ok {
-		return
-	}
-	shipped := vfEmitted(vfShipped())
-	vfAssert(shipped.ParseErr == "", "the shipped container parses")
-	alias := func(e skel.Emitted) map[string]string {
-		m := map[string]string{}
-		for _, i := range e.Imports {
-			m[i.Alias] = i.Path
-		}
-		return m
-	}
-	ea, sa := alias(em), alias(shipped)
-	canon := func(body string, al map[string]string) string {
-		out := vfNormalize(body)
-		for a, p := range al {
-			out = strings.ReplaceAll(out, a+".", "<"+p+">.")
-		}
-		return out
-	}
-	n := 0
-	for _, m := range em.Methods {
-		if !strings.HasPrefix(m.Name, "_") {
-			continue
-		}
-		for _, sm := range shipped.Methods {
-			if sm.Name == m.Name {
-				n++
-				vfAssert(canon(m.Body, ea) == canon(sm.Body, sa), "the shipped helper is the helper the templates emit")
-				vfAssert(m.Params == sm.Params || canon(m.Params, ea) == canon(sm.Params, sa), "helper parameters")
-			}
-		}
-	}
-	vfAssert(n == 5, "all five helpers are generated and shipped")
-	vfReach("C03_helpers_text")
 }
